@@ -413,6 +413,29 @@ def compareReaderWithBuf (hash : Bytes → δ) (h : δ) (expect : Bytes) : Bytes
 success: at most `bufLen` bytes of whatever `ReadBlock` wrote into the pipe. -/
 def readFull (bufLen : Nat) (stream : Bytes) : Bytes := stream.take bufLen
 
+/-- how `br.ReadBlock(ctx, loc, pipew)` ends after writing its bytes into the pipe -/
+inductive PipeEnd where
+  | ok                   -- nil: pipe closed with EOF
+  | unexpectedEOF        -- io.ErrUnexpectedEOF (ReadBlock's short-read verdict)
+  | notExist             -- os.ErrNotExist
+  | other                -- any other error
+deriving DecidableEq, Repr
+
+inductive PipeErr where
+  | none | notExist | other
+deriving DecidableEq, Repr
+
+/-- `getWithPipe(ctx, loc, buf, br)` (ctx not done): `io.ReadFull(piper, buf)` takes `len(buf)` bytes
+of what the block reader writes; if the writer ends first, its error is returned — except that EOF
+and ErrUnexpectedEOF count as success. -/
+def getWithPipeBytes (bufLen : Nat) (written : Bytes) (wend : PipeEnd) : Bytes × PipeErr :=
+  if bufLen ≤ written.length then (readFull bufLen written, .none)
+  else match wend with
+    | .ok => (written, .none)
+    | .unexpectedEOF => (written, .none)
+    | .notExist => (written, .notExist)
+    | .other => (written, .other)
+
 end
 
 end ArvVerif.C01
